@@ -1,0 +1,22 @@
+//go:build verif
+
+package supervisor
+
+// Machine-checked contracts for the supervisor configuration (property C07).
+// Comment-only file: it adds no code to the package. Read by /verif/govc.
+
+//@ property C07
+
+// the backoff bounds of a Supervisor are ordered (precondition of backoffDelay,
+// C08); they are written only by the WithExponentialBackoff option
+//@ spec func backoff_wf(s *Supervisor) bool = s.initialDelay <= 0 || s.initialDelay <= s.maxDelay
+
+//@ func WithExponentialBackoff$1(s)
+//@   requires s != nil && backoff_wf(s)
+//@   ensures keeps-backoff-bounds-ordered: backoff_wf(s)
+
+//@ structural writers Supervisor.initialDelay: WithExponentialBackoff$1
+//@ structural writers Supervisor.maxDelay: WithExponentialBackoff$1
+//@ structural writers Supervisor.backoffResetAfter: WithExponentialBackoff$1
+//@ structural writers Supervisor.maxRetries: NewSupervisor, WithRetry$1
+//@ structural writers Supervisor.timeout: NewSupervisor, WithRetry$1
